@@ -57,6 +57,41 @@ def render(c, s, x):
     return tmpl.replace('{B}', body).replace('{II}', ind(body, 2)).replace('{I}', ind(body, 1)) + '\n'
 
 
+FLOW_HEAD = {
+    'if': ['if c:'], 'else': ['if c:', '    pass', 'else:'], 'elif': ['if c:', '    pass', 'elif d:'], 'for': ['for i in y:'],
+    'forelse': ['for i in y:', '    pass', 'else:'], 'while': ['while c:'], 'try': ['try:'],
+    'except': ['try:', '    pass', 'except E:'], 'tryelse': ['try:', '    pass', 'except E:', '    pass', 'else:'],
+    'finally': ['try:', '    pass', 'finally:'], 'with': ['with m as n:'], 'asyncwith': ['async with m as n:'],
+    'asyncfor': ['async for i in y:'], 'match': ['match v:', '    case 1:'],
+}
+FLOW_TAIL = {'try': ['finally:', '    pass']}
+FLOW_STMT = {'return': 'return', 'returnval': 'return 1', 'raise': 'raise E', 'yield': 'yield 1', 'yieldfrom': 'yield from g',
+             'await': 'await g', 'def': 'def inner(a): return a', 'asyncdef': 'async def inner(): pass',
+             'class': 'class Inner: pass', 'import': 'import os', 'from': 'from a import b', 'lambda': 'k = lambda: (yield)',
+             'docstring': '"text"', 'decorated': '@dec\ndef inner2(): pass'}
+
+
+def render_flow(f, c1, c2, st):
+    lines = {'def': ['def outer(p):'], 'asyncdef': ['async def outer(p):'], 'method': ['class K:', '    def outer(self):']}[f][:]
+    ind = 1 if f != 'method' else 2
+    tails = []
+    for c in (c1, c2):
+        if c == 'none':
+            continue
+        extra = 1 if c == 'match' else 0
+        for hl in FLOW_HEAD[c]:
+            lines.append('    ' * ind + hl)
+        if c in FLOW_TAIL:
+            tails.append((ind, FLOW_TAIL[c]))
+        ind += 1 + extra
+    for sl in FLOW_STMT[st].split('\n'):
+        lines.append('    ' * ind + sl)
+    for i, t in reversed(tails):
+        for tl in t:
+            lines.append('    ' * i + tl)
+    return '\n'.join(lines) + '\n'
+
+
 def observe(tid, text, origin):
     tr = {'id': tid, 'kind': 'facts', 'pfacts': {}, 'afacts': {}, 'raised': False, 'text': text, 'origin': origin, 'exc': ''}
     af = facts.ast_facts(text)
@@ -104,6 +139,19 @@ def run(tier):
             t = render(c, s, x)
             if t:
                 progs.append((t, 'bindings:%s/%s/%s' % (c, s, x)))
+        d2 = scratch.sub('f')
+        tlc.prepare(d2, ['FlowMatrix'])
+        rf = tlc.run(d2, 'FlowMatrix', 'SPECIFICATION Spec\n', workers=2, dump='f', timeout=300)
+        out.add('states', rf.distinct)
+        out.add('transitions', rf.generated)
+        nflow = 0
+        for block in re.split(r'\nState \d+:\n', '\n' + open(os.path.join(d2, 'f.dump')).read())[1:]:
+            st = {m.group(1): tlc.parse_value(m.group(2).strip()) for m in re.finditer(r'/\\ (\w+) = (.*)', block)}
+            if len(st) == 4:
+                progs.append((render_flow(st['f'], st['c1'], st['c2'], st['s']),
+                              'flow:%s/%s/%s/%s' % (st['f'], st['c1'], st['c2'], st['s'])))
+                nflow += 1
+        out.cov(flow_matrix=nflow)
         pairs, r2 = _semctx.enumerate_programs(scratch.sub('sem'), 1)
         out.add('states', r2.distinct)
         out.add('transitions', r2.generated)
